@@ -207,7 +207,8 @@ fn main() {
                 std::process::exit(3);
             }
             set_env(&p);
-            let rec = runner::run_program(0, &p, &s.cfg, build_name());
+            let cfg = if args.iter().any(|a| a == "--seq") { seq::cfg() } else { s.cfg.clone() };
+            let rec = runner::run_program(0, &p, &cfg, build_name());
             println!("{}", serde_json::to_string_pretty(&rec).unwrap());
             if rec.violation.is_some() {
                 std::process::exit(1);
